@@ -34,7 +34,7 @@ ASSUMPTIONS = ["after a session passed step-level settings for an element to a s
                "the fresh-model oracle shares the DSL core with the system (its correctness is C01, not claimed)"]
 FAULT_KINDS = []
 PROBES = ["observed_together_with_sibling", "sibling_on_another_grid", "hybrid_manager", "managers_share_base_object", "points_setting", "runspec_setting", "step_level_setting", "rest_run_setting", "session_left_open",
-          "scenario_added_later", "session_with_foreign_operations", "session_over_two_managers", "scenario_registered_again", "run_over_two_managers", "name_known_to_one_manager_only"]
+          "scenario_added_later", "session_with_foreign_operations", "point_edited_in_place", "session_over_two_managers", "scenario_registered_again", "run_over_two_managers", "name_known_to_one_manager_only"]
 EXHAUSTIVE = {"quick": False, "thorough": False}
 
 VALS = [0.0, 0.5, 1.5, 2.0, 3.0, 7.0]
@@ -268,9 +268,19 @@ def generate(spec):
             ops.append({"op": "rest_run", "manager": mgr, "scenario": sc,
                         "settings": {mgr: {sc: gen_settings(rng, tpl_of[mgr], base_of[mgr])}},
                         "equations": rng.sample(T.ELEMENTS[tpl_of[mgr]], rng.randint(1, 2))})
-        elif r < 0.82:
+        elif r < 0.76:
             mgr, sc = rng.choice(keys)
             ops.append({"op": "reset_cache", "manager": mgr, "scenario": sc})
+        elif r < 0.82:
+            # one point of a graphical function edited in place on ONE scenario's model (the way a dashboard slider does it):
+            # nobody else's table moves
+            mgr, sc = rng.choice(keys)
+            tabs = T.TABLES.get(tpl_of[mgr]) or []
+            if tabs and not (in_session and mgr in in_session[0] and sc in in_session[1]):
+                ops.append({"op": "poke_point", "manager": mgr, "scenario": sc, "table": rng.choice(tabs), "index": rng.choice([0, 1, -1]),
+                            "y": rng.choice([0.5, 3.0, 50.0])})
+            else:
+                ops.append({"op": "reset_cache", "manager": mgr, "scenario": sc})
         elif r < 0.92 and added < 2:
             mgr = rng.choice([m["name"] for m in cfg["managers"]])
             name = "late%d" % added
@@ -342,6 +352,18 @@ def apply_op(w, op, res):
     elif kind == "reset_cache":
         b.reset_scenario_cache(scenario_manager=op["manager"], scenario=op["scenario"])
         touched = {(op["manager"], op["scenario"])}
+    elif kind == "poke_point":
+        key = (op["manager"], op["scenario"])
+        sh = w.shadow.get(key)
+        touched = {key}
+        if sh is not None and op["table"] not in sh["points"] and key not in getattr(w, "session", set()):
+            # (a table the scenario itself overrides is re-applied from the scenario's settings at every run: not poked)
+            sc_obj = b.get_scenario(op["manager"], op["scenario"])
+            table = sc_obj.model.points[op["table"]]
+            table[op["index"]][1] = op["y"]
+            b.reset_scenario_cache(scenario_manager=op["manager"], scenario=op["scenario"])
+            sh["points"][op["table"]] = [list(p_) for p_ in table]
+            res.probe("point_edited_in_place")
     elif kind == "add_scenario":
         res.probe("scenario_registered_again" if (op["manager"], op["name"]) in w.shadow else "scenario_added_later")
         w.add_scenario(op["manager"], op["name"], op["dict"])
@@ -484,7 +506,7 @@ def run_history(w, case, res, log, prop, twin_factory=None):
                     return False
                 if k == "run":
                     return not ({(m, s_) for m in op["managers"] for s_ in op["scenarios"]} & sess)
-                if k in ("rest_run", "reset_cache"):
+                if k in ("rest_run", "reset_cache", "poke_point"):
                     return (op["manager"], op["scenario"]) not in sess
                 if k == "add_scenario":
                     return (op["manager"], op["name"]) not in sess
